@@ -26,6 +26,7 @@ var c17fRules = [][]string{
 	{"gen/", "lib/b.lua"},
 	{"^lib/sub/c%.lua$"}, // (a pattern that matches nothing: % is no escape in Go regular expressions)
 	{"sub"},
+	{"^gen/"}, // a regular expression anchored at the start of the path relative to the workspace
 }
 
 var c17fFiles = []string{"a.lua", "lib/b.lua", "lib/sub/c.lua", "gen/d.lua"}
@@ -41,6 +42,16 @@ var c17fMatch = [][]bool{
 	{false, true, false, true},
 	{false, false, false, false},
 	{false, false, true, false},
+	{false, false, false, true},
+}
+
+// the rules of IgnoreFileOrDirError are matched against the complete file name, so a pattern anchored at the
+// start of the relative path matches nothing there
+func c17fMatchErr(rule int, file int) bool {
+	if rule == 8 {
+		return false
+	}
+	return c17fMatch[rule][file]
 }
 
 func c17fParams(ignore, ignoreErr []string) ChangeConfigurationParams {
@@ -95,7 +106,7 @@ func VerifRun_C17f() {
 	verifObserve("view", view)
 	for i, f := range c17fFiles {
 		shown := c08view["file://"+root+"/"+f] != ""
-		want := !c17fMatch[last][i] && !c17fMatch[lastErr][i]
+		want := !c17fMatch[last][i] && !c17fMatchErr(lastErr, i)
 		if shown && !want {
 			verifViolation("", "a file matched by an ignore rule of the current configuration still shows its diagnostics")
 		}
@@ -121,7 +132,7 @@ func VerifRun_C17f() {
 	for i, f := range c17fFiles {
 		v := c08view["file://"+root+"/"+f]
 		view2 += "[" + f + ": " + v + "]"
-		want := !c17fMatch[last][i] && !c17fMatch[lastErr][i]
+		want := !c17fMatch[last][i] && !c17fMatchErr(lastErr, i)
 		two := false
 		for k := 0; k+1 < len(v); k++ {
 			if v[k] == ';' && k+2 < len(v) {
